@@ -25,6 +25,15 @@ struct OpInfo {
     sig_ok: bool,
 }
 
+/// identity of an operation for the harness: its serialised form, NOT the crate's `Eq`/`Ord`/`Hash` (which are part of
+/// what is being checked: the op set is a `BTreeSet<RegisterOp>`)
+fn op_key(op: &RegisterOp) -> Vec<u8> {
+    serde_json::to_vec(op).expect("json")
+}
+fn key_set(reg: &SignedRegister) -> BTreeSet<Vec<u8>> {
+    reg.ops().iter().map(op_key).collect()
+}
+
 struct World {
     sks: Vec<SecretKey>,               // signer id = index + 1
     addrs: Vec<RegisterAddress>,       // addr id = index + 1
@@ -82,7 +91,20 @@ impl World {
         i
     }
     fn op_id_of(&self, op: &RegisterOp) -> u64 {
-        self.ops.iter().find(|(_, i)| &i.op == op).map(|(k, _)| *k).unwrap_or(0)
+        let k = op_key(op);
+        self.ops.iter().find(|(_, i)| op_key(&i.op) == k).map(|(k, _)| *k).unwrap_or(0)
+    }
+    /// the same CRDT node (entry + parents) as `orig`, signed by another key: a distinct operation
+    fn make_sibling(&mut self, orig: u64, signer: u64) -> Option<(u64, String)> {
+        let o = self.ops.get(&orig)?.clone();
+        if !o.sig_ok || o.source == signer {
+            return None;
+        }
+        let v = serde_json::to_value(&o.op).ok()?;
+        let node: Node<Vec<u8>> = serde_json::from_value(v["crdt_op"].clone()).ok()?;
+        let children: Vec<[u8; 32]> = node.children.iter().copied().collect();
+        let (id, line) = self.make_op(o.addr, signer, node.value.clone(), &children);
+        if line.is_empty() { None } else { Some((id, line)) }
     }
     /// declare a genuine op; returns (id, declaration line)
     fn make_op(&mut self, addr: u64, signer: u64, value: Vec<u8>, children: &[[u8; 32]]) -> (u64, String) {
@@ -92,7 +114,8 @@ impl World {
         let nid = self.node_id(h);
         let child_ids: Vec<u64> = node.children.iter().map(|c| self.node_id(*c)).collect();
         let op = RegisterOp::new(self.addrs[addr as usize - 1], node, &self.sks[signer as usize - 1]);
-        if let Some((k, _)) = self.ops.iter().find(|(_, i)| i.op == op) {
+        let key = op_key(&op);
+        if let Some((k, _)) = self.ops.iter().find(|(_, i)| op_key(&i.op) == key) {
             return (*k, String::new()); // BLS signatures are deterministic: the same op again
         }
         let id = self.fresh();
@@ -111,7 +134,8 @@ impl World {
         let dv = serde_json::to_value(&d.op).ok()?;
         v["signature"] = dv["signature"].clone();
         let op: RegisterOp = serde_json::from_value(v).ok()?;
-        if self.ops.values().any(|i| i.op == op) {
+        let key = op_key(&op);
+        if self.ops.values().any(|i| op_key(&i.op) == key) {
             return None; // identical to an op already declared (same donor signature)
         }
         let id = self.fresh();
@@ -194,6 +218,17 @@ fn exec(w: &mut World, line: &str) -> String {
                 }
                 Err(e) => format!("err {}", err_class(&e)),
             }
+        }
+        ["inject", r, o] => {
+            // a copy as a malicious peer could serve it: the op is put into the set with no check at all
+            let op = w.ops[&num(o)].op.clone();
+            let reg = w.regs[&num(r)].clone();
+            let mut ops: BTreeSet<RegisterOp> = reg.ops().clone();
+            let _ = ops.insert(op);
+            let rebuilt = SignedRegister::new(reg.base_register().clone(), signature_of(&reg), ops);
+            w.regs.insert(num(r), rebuilt);
+            w.reg_meta.get_mut(&num(r)).expect("meta").3 = true;
+            "ok".into()
         }
         ["verify", r] => match w.regs[&num(r)].verify() {
             Ok(()) => "ok".into(),
@@ -292,11 +327,11 @@ fn oracle_episode(w: &mut World, history: &[String], out: &mut Out) {
     // register whose union stays within the entry limit accept each other (shared history counted once)
     for &a in &ids {
         let mut ra = w.regs[&a].clone();
-        let before = ra.ops().clone();
+        let before = key_set(&ra);
         if before.len() <= MAX_ENTRIES {
             let r = ra.merge(&w.regs[&a]);
-            if r.is_err() || ra.ops() != &before {
-                out.oracle_fail("merge-self-accepted", &hist, &format!("replica {a} ({} ops) merged with an identical copy: {r:?}, set changed: {}", before.len(), ra.ops() != &before));
+            if r.is_err() || key_set(&ra) != before {
+                out.oracle_fail("merge-self-accepted", &hist, &format!("replica {a} ({} ops) merged with an identical copy: {r:?}, set changed: {}", before.len(), key_set(&ra) != before));
             }
             if !w.reg_meta[&a].3 {
                 let mut rv = w.regs[&a].clone();
@@ -313,7 +348,7 @@ fn oracle_episode(w: &mut World, history: &[String], out: &mut Out) {
             if a == b || w.regs[&a].base_register() != w.regs[&b].base_register() {
                 continue;
             }
-            let union: std::collections::BTreeSet<_> = w.regs[&a].ops().iter().chain(w.regs[&b].ops().iter()).cloned().collect();
+            let union: BTreeSet<Vec<u8>> = key_set(&w.regs[&a]).union(&key_set(&w.regs[&b])).cloned().collect();
             if union.len() <= MAX_ENTRIES {
                 let mut ra = w.regs[&a].clone();
                 if let Err(e) = ra.merge(&w.regs[&b]) {
@@ -334,13 +369,13 @@ fn oracle_episode(w: &mut World, history: &[String], out: &mut Out) {
                 out.oracle_fail("merge-symmetric-rejection", &hist, &format!("merge {a}<-{b} = {r1:?} but {b}<-{a} = {r2:?}"));
             }
             if r1.is_ok() && r2.is_ok() {
-                if ra.ops() != rb.ops() {
+                if key_set(&ra) != key_set(&rb) {
                     out.oracle_fail("merge-commutative", &hist, &format!("replicas {a},{b}: a∪b ≠ b∪a"));
                 }
-                let before = ra.ops().clone();
+                let before = key_set(&ra);
                 let again = w.regs[&b].clone();
                 let _ = ra.merge(&again);
-                if ra.ops() != &before {
+                if key_set(&ra) != before {
                     out.oracle_fail("merge-idempotent", &hist, &format!("replicas {a},{b}: merging twice changed the set"));
                 }
             }
@@ -395,13 +430,38 @@ fn gen_episode(rng: &mut Rng, w: &mut World, len: u64, out: &mut Out, across_lim
                 _ => None,
             }
         };
-        let before = target.and_then(|t| w.regs.get(&t).map(|r| r.ops().clone()));
+        let before = target.and_then(|t| w.regs.get(&t).map(key_set));
         let r = catch_unwind(AssertUnwindSafe(|| exec(w, &line))).unwrap_or_else(|_| "panic".into());
+        {
+            // an accepted operation is in the replica afterwards; an accepted merge imported every operation of the other side
+            let ws: Vec<&str> = line.split_whitespace().collect();
+            if r == "ok" {
+                match ws.as_slice() {
+                    ["addop", t, o] => {
+                        let (t, o): (u64, u64) = (t.parse().expect("t"), o.parse().expect("o"));
+                        if !key_set(&w.regs[&t]).contains(&op_key(&w.ops[&o].op)) {
+                            let mut h = history.clone();
+                            h.push(line.clone());
+                            out.oracle_fail("accepted-op-is-held", &h.join(" ; "), &format!("`{line}` returned Ok but replica {t} does not hold operation {o}"));
+                        }
+                    }
+                    ["merge", a, b] | ["vmerge", a, b] => {
+                        let (a, b): (u64, u64) = (a.parse().expect("a"), b.parse().expect("b"));
+                        if !key_set(&w.regs[&b]).is_subset(&key_set(&w.regs[&a])) {
+                            let mut h = history.clone();
+                            h.push(line.clone());
+                            out.oracle_fail("merge-imports-all", &h.join(" ; "), &format!("`{line}` returned Ok but replica {a} lacks operations replica {b} holds"));
+                        }
+                    }
+                    _ => {}
+                }
+            }
+        }
         if r == "panic" {
             out.oracle_fail("no-panic", &history.join(" ; "), &format!("panic on `{line}`"));
         }
         if let (Some(t), Some(b)) = (target, before) {
-            if r.starts_with("err") && w.regs.get(&t).map(|x| x.ops() != &b).unwrap_or(false) {
+            if r.starts_with("err") && w.regs.get(&t).map(|x| key_set(x) != b).unwrap_or(false) {
                 let mut h = history.clone();
                 h.push(line.clone());
                 out.oracle_fail("rejected-changes-nothing", &h.join(" ; "), &format!("`{line}` was refused ({r}) but replica {t}'s op set changed"));
@@ -453,6 +513,21 @@ fn gen_episode(rng: &mut Rng, w: &mut World, len: u64, out: &mut Out, across_lim
             }
         }
     }
+    if across_limit && reps.len() >= 2 {
+        // a peer copy beyond the entry cap that also carries an operation its permissions do not admit, offered to a
+        // clean replica of the same base register through verified_merge
+        let r = reps[0];
+        let (bad, line) = w.make_op(1, 3, format!("intruder-{r}").into_bytes(), &[]);
+        if !line.is_empty() {
+            emit(w, line, &mut history, out);
+        }
+        emit(w, format!("inject {r} {bad}"), &mut history, out);
+        emit(w, format!("verify {r}"), &mut history, out);
+        for other in reps.clone().into_iter().skip(1) {
+            emit(w, format!("vmerge {other} {r}"), &mut history, out);
+            emit(w, format!("ops {other}"), &mut history, out);
+        }
+    }
     for _ in 0..len {
         match rng.below(20) {
             0..=4 => {
@@ -480,6 +555,22 @@ fn gen_episode(rng: &mut Rng, w: &mut World, len: u64, out: &mut Out, across_lim
                     emit(w, line, &mut history, out);
                 }
             }
+            5 if pool.len() >= 2 && rng.chance(1, 2) => {
+                // the same entry on the same parents by another writer: a distinct operation that must be kept
+                let orig = *rng.pick(&pool);
+                let signer = *rng.pick(&[1u64, 2, 2, 3]);
+                if let Some((id, line)) = w.make_sibling(orig, signer) {
+                    pool.push(id);
+                    emit(w, line, &mut history, out);
+                    // deliver the two in opposite orders to two replicas
+                    if reps.len() >= 2 && rng.chance(2, 3) {
+                        emit(w, format!("addop {} {orig}", reps[0]), &mut history, out);
+                        emit(w, format!("addop {} {id}", reps[0]), &mut history, out);
+                        emit(w, format!("addop {} {id}", reps[1]), &mut history, out);
+                        emit(w, format!("addop {} {orig}", reps[1]), &mut history, out);
+                    }
+                }
+            }
             5 if pool.len() >= 2 => {
                 let (a, b) = (*rng.pick(&pool), *rng.pick(&pool));
                 if let Some((id, line)) = w.forge(a, b) {
@@ -502,6 +593,15 @@ fn gen_episode(rng: &mut Rng, w: &mut World, len: u64, out: &mut Out, across_lim
             13..=14 => {
                 let (a, b) = (*rng.pick(&reps), *rng.pick(&reps));
                 emit(w, format!("vmerge {a} {b}"), &mut history, out);
+            }
+            15 if !pool.is_empty() && reps.len() >= 2 && rng.chance(1, 4) => {
+                // a copy holding an unchecked operation (whatever it is), then offered to another replica through verified_merge
+                let (r, o) = (*rng.pick(&reps), *rng.pick(&pool));
+                emit(w, format!("inject {r} {o}"), &mut history, out);
+                let other = *rng.pick(&reps);
+                if other != r {
+                    emit(w, format!("vmerge {other} {r}"), &mut history, out);
+                }
             }
             15 => emit(w, format!("verify {}", rng.pick(&reps)), &mut history, out),
             16 => emit(w, format!("ops {}", rng.pick(&reps)), &mut history, out),
